@@ -24,6 +24,13 @@ func (a *Analyzer) QualifiedResolution() []RuleResult {
 	var evals []*ssa.Call
 	joinOK := false
 	for _, c := range Calls(f) {
+		// a module helper that only wraps EvalSymlinks (every success return hands back its first result) counts as the call itself
+		if cv, ok := c.(*ssa.Call); ok {
+			if g := cv.Call.StaticCallee(); g != nil && g != f && a.P.InModule(g) && wrapsEvalSymlinks(g) {
+				evals = append(evals, cv)
+				continue
+			}
+		}
 		switch shortCallee(c) {
 		case "path/filepath.EvalSymlinks":
 			if cv, ok := c.(*ssa.Call); ok {
@@ -93,7 +100,18 @@ func (a *Analyzer) QualifiedResolution() []RuleResult {
 		}
 		for _, in := range b.Instrs {
 			rt, ok := in.(*ssa.Return)
-			if !ok || len(rt.Results) != 2 || !isNilConst(rt.Results[1]) {
+			if !ok || len(rt.Results) != 2 {
+				continue
+			}
+			// `return EvalSymlinks(x)` / `return helper(x)`: both results forwarded from one resolving call
+			if e0, ok0 := rt.Results[0].(*ssa.Extract); ok0 && e0.Index == 0 {
+				if e1, ok1 := rt.Results[1].(*ssa.Extract); ok1 && e1.Index == 1 && e1.Tuple == e0.Tuple && isEval[e0.Tuple] {
+					n++
+					out = append(out, RuleResult{"B-QUALIFIED", fn, fmt.Sprintf("success return #%d of the file branch returns the location with symlinks resolved", n), a.P.InstrPos(rt), true, "forwards both results of the resolving call"})
+					continue
+				}
+			}
+			if !isNilConst(rt.Results[1]) {
 				continue
 			}
 			n++
@@ -126,4 +144,38 @@ func (a *Analyzer) QualifiedResolution() []RuleResult {
 	}
 	out = append(out, RuleResult{"B-QUALIFIED", fn, "success returns after EvalSymlinks", "", n >= 1, fmt.Sprintf("%d", n)})
 	return out
+}
+
+// wrapsEvalSymlinks: g returns (string, error) and every return with a nil error returns the first result of a
+// filepath.EvalSymlinks call made in g (possibly cleaned).
+func wrapsEvalSymlinks(g *ssa.Function) bool {
+	if g.Blocks == nil || g.Signature.Results().Len() != 2 {
+		return false
+	}
+	n := 0
+	for _, b := range g.Blocks {
+		for _, in := range b.Instrs {
+			rt, ok := in.(*ssa.Return)
+			if !ok || len(rt.Results) != 2 || !isNilConst(rt.Results[1]) {
+				continue
+			}
+			rv := rt.Results[0]
+			if c, isCall := rv.(*ssa.Call); isCall && len(c.Call.Args) == 1 {
+				switch shortCallee(c) {
+				case "path/filepath.Clean", "path/filepath.ToSlash", "path/filepath.FromSlash":
+					rv = c.Call.Args[0]
+				}
+			}
+			ex, isEx := rv.(*ssa.Extract)
+			if !isEx || ex.Index != 0 {
+				return false
+			}
+			c, isCall := ex.Tuple.(*ssa.Call)
+			if !isCall || shortCallee(c) != "path/filepath.EvalSymlinks" {
+				return false
+			}
+			n++
+		}
+	}
+	return n > 0
 }
